@@ -299,10 +299,18 @@ def gen(rng, tier='quick', exact_only=False, label_kind=None, allow_affine=True,
         ph2 = rng.uniform(0.5, 1.5, Sn)
         ph2 = np.round(ph2 / ph2.sum(), 3)
         ph2[-1] = np.round(1 - ph2[:-1].sum(), 3)
+        k2 = ['fixed', 'fixed', 'norminf', 'norminf', 'norm1'] + \
+            ([] if exact_only else ['kl', 'kl', 'norm2'])
+        # when the default set has a KL or 2-norm probability set, the second one gets another
+        # kind (or other parameters) more often: the two sets must not influence each other
+        t2 = k2[int(rng.integers(len(k2)))]
+        p2set = {'t': t2, 'phat': ph2.tolist()}
+        if t2 in ('norminf', 'norm1', 'norm2'):
+            p2set['r'] = float(np.round(rng.uniform(0.05, 0.2), 3))
+        elif t2 == 'kl':
+            p2set['r'] = float(np.round(rng.uniform(0.01, 0.2), 3))
         amb2 = {'supports': sup2, 'centers': cen2.tolist(), 'shared': False,
-                'pset': {'t': 'fixed', 'phat': ph2.tolist()} if rng.random() < 0.5 else
-                {'t': 'norminf', 'phat': ph2.tolist(), 'r': float(np.round(rng.uniform(0.05, 0.2), 3))},
-                'moments': []}
+                'pset': p2set, 'moments': []}
         if Sn == 1:
             amb2['pset'] = {'t': 'fixed', 'phat': [1.0]}
         if rng.random() < 0.5:
@@ -314,6 +322,27 @@ def gen(rng, tier='quick', exact_only=False, label_kind=None, allow_affine=True,
                  'idx': list(range(nz))}]})
         for row in rows:
             row['amb'] = int(rng.random() < 0.6)
+        # the probability set of the second ambiguity set only matters in rows written with E:
+        # make sure one of them uses it (and that such a row exists) most of the time
+        if rng.random() < 0.7:
+            erows = [r_ for r_ in rows if r_['expect']]
+            if not erows:
+                rows[0]['expect'] = True
+                erows = [rows[0]]
+            erows[0]['amb'] = 1
+            if rng.random() < 0.7 and amb2['pset']['t'] != 'kl':      # (ECOS gives up on KL + epigraph)
+                # ... and make that row matter: E(e) <= t with a new static variable t that is
+                # paid for in the objective, so the optimum moves with the worst-case
+                # expectation over the second ambiguity set
+                xvars.append({'n': 1, 'partition': [list(range(Sn))], 'mask': None, 'order': [0],
+                              'M': 15.0})
+                for e_ in pieces + [r_['e'] for r_ in rows]:
+                    e_['a'].append([0.0])
+                    e_['P'].append(np.zeros((1, nz)).tolist())
+                erows[0]['sense'] = 'le'
+                erows[0]['e']['a'][-1] = [-1.0]
+                for pc_ in pieces:
+                    pc_['a'][-1] = [1.0 if mode == 'minsup' else -1.0]
     spec = {'amb2': amb2, 'S': Sn, 'labels': labels, 'nz': nz, 'supports': supports,
             'shared': bool(shared),
             'centers': centers.tolist(), 'pset': pset, 'moments': moments, 'xvars': xvars,
@@ -648,6 +677,22 @@ def scen_selector(fset, spec, ev, rng):
     return fset.loc[lab] if len(lab) > 1 else fset.loc[lab[0]]
 
 
+def _probset(fset, p, ps, arr, rso):
+    ph = arr(ps['phat'])
+    if ps['t'] == 'fixed':
+        fset.probset(p == ph)
+    elif ps['t'] == 'box':
+        fset.probset(p >= arr(ps['lo']), p <= arr(ps['hi']))
+    elif ps['t'] == 'norm1':
+        fset.probset(rso.norm(p - ph, 1) <= ps['r'])
+    elif ps['t'] == 'norminf':
+        fset.probset(rso.norm(p - ph, 'inf') <= ps['r'])
+    elif ps['t'] == 'norm2':
+        fset.probset(rso.norm(p - ph, 2) <= ps['r'])
+    elif ps['t'] == 'kl':
+        fset.probset(rso.kldiv(p, ph, ps['r']))
+
+
 def build(spec, variant=None):
     try:
         return _build(spec, variant)
@@ -716,30 +761,12 @@ def _build(spec, variant=None):
         for mo in a2['moments']:
             scen_selector(fset2, spec, mo['event'], rng).exptset(
                 S.build_rsome(mo['prims'], rso.E(z), rng))
-        p2 = a2['pset']
-        if p2['t'] == 'fixed':
-            fset2.probset(m.p == arr(p2['phat']))
-        else:
-            fset2.probset(rso.norm(m.p - arr(p2['phat']), 'inf') <= p2['r'])
+        _probset(fset2, m.p, a2['pset'], arr, rso)
     B.fset2 = fset2
     if variant.get('after_sets'):
         variant['after_sets'](B, rng)
     # probabilities
-    p = m.p
-    ps = spec['pset']
-    ph = arr(ps['phat'])
-    if ps['t'] == 'fixed':
-        fset.probset(p == ph)
-    elif ps['t'] == 'box':
-        fset.probset(p >= arr(ps['lo']), p <= arr(ps['hi']))
-    elif ps['t'] == 'norm1':
-        fset.probset(rso.norm(p - ph, 1) <= ps['r'])
-    elif ps['t'] == 'norminf':
-        fset.probset(rso.norm(p - ph, 'inf') <= ps['r'])
-    elif ps['t'] == 'norm2':
-        fset.probset(rso.norm(p - ph, 2) <= ps['r'])
-    elif ps['t'] == 'kl':
-        fset.probset(rso.kldiv(p, ph, ps['r']))
+    _probset(fset, m.p, spec['pset'], arr, rso)
     # adaptation
     for v, x in zip(spec['xvars'], xs):
         part = v['partition']
